@@ -41,7 +41,7 @@ func init() {
 			{Name: "VerifC14_MountPointEscape", Pkg: sbPkg, Solver: "z3", Params: map[string]int64{"destlen": destlen}, MaxPaths: 400000},
 		}
 		c.Assumptions = append(c.Assumptions,
-			"requested mounts: up to 2 (thorough 3), each either a scratch directory with a solver-chosen 1-2 byte name, a directory nested below such a name, a symlink to another directory, or one of the sandbox's own paths (/tmp, /proc, /sys, /dev, /app/sfw, /gocache, /proc/self, /dev/null)",
+			"requested mounts: up to 2 (thorough 3), each either a scratch directory with a solver-chosen 1-2 byte name, a directory nested below such a name, a symlink to another directory, or one of the sandbox's own paths (/tmp, /proc, /sys, /dev, /app/sfw, /gocache, /proc/self, /dev/null; tmp and ./proc relative to the working directory /)",
 			"file system answered from a symbolic table (system library paths exist and resolve to themselves); GOROOT/GOCACHE set to scratch directories; uid/gid constants",
 			"mount-point escape: destinations of up to 5 (7) bytes over {'/', '.', 'a'} against the real filepath.Join/Rel/Clean executed from their SSA",
 			"what runsc does with the specification is outside the claim")
